@@ -267,24 +267,37 @@ def r5_typability(facts, rep):
 
 
 def r6_sentence(facts, rep):
-    rep.rule("C16-R6", "evaluation looks a phrase up with exactly the source text of the WORD / SENTENCE node "
-                       "(q.source(node.span())) - see also C18-R2")
-    body = anchor(rep, "C16-R6", facts, "eval::eval")
-    if body is None:
+    rep.rule("C16-R6", "evaluation looks a phrase up with exactly the source text of the WORD / SENTENCE node: summary of eval::eval "
+                       "on such a node (scripted tree, helpers followed): Db::lookup is called once, with text(span of the node), and "
+                       "a hit yields the constant's value and unit - see also C18-R2")
+    from . import evalnode, evalops
+    if anchor(rep, "C16-R6", facts, "eval::eval") is None:
         return
-    lk = flow.calls_named(body, lambda n: n == "db::Db::lookup")
-    rep.floor("C16-R6", "Db::lookup calls in eval", len(lk), 1)
-    for bid, t, sp, _ in lk:
-        ls = flow.slice_back(body, t["args"][1])
-        src = {l[1] for l in ls if l[0] == "call"}
-        okk = src == {"query::Query::<'a>::source"}
-        if okk:
-            for l in ls:
-                if l[0] == "call":
-                    t2 = body.blocks[l[2]]["term"]["t"]
-                    s2 = {x[1] for x in flow.slice_back(body, t2["args"][1]) if x[0] == "call"}
-                    okk = okk and s2 == {"syntree::Node::<'a, T, I, W>::span"}
-        rep.ob("C16-R6", "lookup-text", okk, "Db::lookup receives %s" % sorted(src), body.site(sp))
+    for kind in ("WORD", "SENTENCE"):
+        tree = {0: {"kind": kind, "children": []}}
+        try:
+            dom, it, outs, dref = evalnode.run_eval(facts, tree, extra=evalnode.lookup_oracle(facts), with_query=True)
+        except core.Undecided as e:
+            rep.ob("C16-R6", "lookup-text:%s" % kind, False, "undecided: %s" % e)
+            continue
+        bad = []
+        n_ok = 0
+        want = T("text", Sym("span0"))
+        for o in outs:
+            if o.kind != "ret":
+                bad.append("%s %s" % (o.kind, o.value))
+                continue
+            lk = [e for e in dom.log(o.store) if e[0] == "lookup"]
+            if len(lk) != 1 or lk[0][1] != want:
+                bad.append("Db::lookup receives %s; specified once, the node's own text" % [repr(e[1]) for e in lk])
+            u = evalops.unpack(o.value)
+            if u[0] == "ok":
+                n_ok += 1
+                if u[1] != Sym("c.value") or evalops.unit_sym(u[2]) != Sym("c.unit"):
+                    bad.append("a hit evaluates to (%r, %r); specified the constant's value and unit" % (u[1], u[2]))
+        rep.ob("C16-R6", "lookup-text:%s" % kind, not bad and n_ok >= 1, "; ".join(sorted(set(bad))[:3]) if bad else
+               "a %s node is looked up by exactly its own text and evaluates to the matched constant (%d Ok path(s))" % (kind, n_ok),
+               facts.fn("eval::eval").site())
 
 
 def run(fx, rep, tier):
